@@ -427,6 +427,30 @@ def install(reg):
     for nm in ("exp", "log", "log10", "sqrt", "sin", "cos"):
         _ew1(nm, nm)
 
+    @fn("numpy.ndim")
+    def np_ndim(itp, a, k):
+        v = a[0]
+        if isinstance(v, SArr):
+            return v.ndim
+        if is_scalar(v):
+            return 0
+        if isinstance(v, (list, tuple)):
+            return to_array(itp, v).ndim
+        raise Unsupported("np.ndim")
+
+    @fn("numpy.shape")
+    def np_shape(itp, a, k):
+        v = a[0]
+        if isinstance(v, SArr):
+            return tuple(wrap(e) for e in v.shape)
+        if is_scalar(v):
+            return ()
+        return tuple(wrap(e) for e in to_array(itp, v).shape)
+
+    @fn("numpy.isscalar")
+    def np_isscalar(itp, a, k):
+        return is_scalar(a[0])
+
     @fn("numpy.log1p")
     def np_log1p(itp, a, k):
         v = to_array_if_seq(itp, a[0])
